@@ -7,7 +7,7 @@ Import ListNotations.
 
 (* elements for which Poll has not yet decided *)
 Definition wpre (w : wst) : list elem :=
-  match w with WPopped e | WParked e | WPopped2 e | WParked2 e => [e] | _ => [] end.
+  match w with WPopped e | WParked e | WPopped2 e | WParked2 e | WChosen e => [e] | _ => [] end.
 Definition wpend (ws : list wst) : list elem := flat_map wpre ws.
 Definition pend (s : st) : list elem := heap s ++ wpend (workers s).
 
@@ -130,6 +130,14 @@ Proof.
     + intros R. rewrite R in E. simpl in E. exact E.
 Qed.
 
+Lemma chosen_micro s w e old :
+  nth_error (workers s) w = Some old -> wpre old = [e] -> mstar s (upd_w s w (WChosen e)).
+Proof.
+  intros H Ho. apply quiet_like; auto. intros p.
+  pose proof (pend_update p s (upd_w s w (WChosen e)) w old (WChosen e) H eq_refl) as P; unfold upd_w in *.
+  rewrite Ho in P. simpl in P |- *. lia.
+Qed.
+
 Lemma ctx_micro s w e old :
   nth_error (workers s) w = Some old -> wpre old = [e] -> shut s = true ->
   mstar s (upd_w (fst (ctx_branch s e)) w (snd (ctx_branch s e))).
@@ -139,7 +147,7 @@ Proof.
     intros p. pose proof (pend_update p s (upd_w (emit s (EDiscard (eid e))) w WExit) w old WExit H eq_refl) as P; unfold upd_w in *.
     rewrite Ho in P. simpl in P |- *. rewrite cnt_nil in P. lia.
   - destruct (fignore s) eqn:Fi.
-    + apply deliver_micro with (old := old); auto.
+    + simpl. apply chosen_micro with (old := old); auto.
     + simpl. apply quiet_like; auto. intros p.
       pose proof (pend_update p s (upd_w s w (WPopped2 e)) w old (WPopped2 e) H eq_refl) as P; unfold upd_w in *.
       rewrite Ho in P. simpl in P |- *. lia.
@@ -155,7 +163,7 @@ Proof.
   - apply ev_like with (e := ESkip (eid e)); auto.
     intros p. pose proof (pend_update p s (upd_w (emit s (ESkip (eid e))) w WIdle) w old WIdle H eq_refl) as P; unfold upd_w in *.
     rewrite Ho in P. simpl in P |- *. rewrite cnt_nil in P. lia.
-  - apply deliver_micro with (old := old); auto.
+  - apply chosen_micro with (old := old); auto.
 Qed.
 
 Lemma nth_mod_in (r : list branch) c : r <> [] -> In (nth (c mod length r) r BTim) r.
@@ -202,7 +210,7 @@ Proof.
       apply take_micro with (old := WPopped e); auto.
   - (* WParked *)
     destruct (is_due s e) eqn:D; [|apply ms_refl].
-    apply deliver_micro with (old := WParked e); auto.
+    apply chosen_micro with (old := WParked e); auto.
   - (* WPopped2 *)
     destruct (ready_inner s e) as [|b r] eqn:R.
     + simpl. apply quiet_like; auto. intros p.
@@ -212,7 +220,11 @@ Proof.
       apply take_micro with (old := WPopped2 e); auto; try (intros; congruence).
   - (* WParked2 *)
     destruct (is_due s e) eqn:D; [|apply ms_refl].
-    apply deliver_micro with (old := WParked2 e); auto.
+    apply chosen_micro with (old := WParked2 e); auto.
+  - (* WChosen *)
+    destruct (is_due s e || (shut s && fignore s)) eqn:D; [|apply ms_refl].
+    apply deliver_micro with (old := WChosen e); auto.
+    apply orb_true_iff in D as [D|D]; auto. apply andb_true_iff in D. auto.
   - (* WDeliv *)
     assert (G : forall s1 ev new, special ev = false -> wpre new = [] ->
               now s1 = now s -> nxt s1 = nxt s -> shut s1 = shut s -> fignore s1 = fignore s -> fcancel s1 = fcancel s ->
@@ -366,7 +378,7 @@ Proof.
   destruct ws; try (split; [apply ms_refl | auto]).
   split.
   - apply (ctx_micro s w e (WParked e)); auto.
-  - unfold ctx_branch, deliver. destruct (fcancel s), (fignore s), (recheck s && memb (eid e) (closed s)); simpl; auto.
+  - unfold ctx_branch. destruct (fcancel s), (fignore s); simpl; auto.
 Qed.
 
 Lemma wake_ctx_fold l : forall s, shut s = true -> mstar s (fold_left wake_ctx_at l s).
